@@ -15,6 +15,15 @@ def _eq_map(rec):
                 for suf in ("_npu", "_cpu"):
                     if n.endswith(suf):
                         m.setdefault(n[:-len(suf)], d["eq"])
+        # variable (state) tensors are operands of the custom operator without being subgraph inputs of the NPU graph: take their
+        # equivalence class from the operand descriptors of the commands
+        for c in sg.get("cmds") or []:
+            for k in ("ifm", "ifm2", "ofm"):
+                d = c.get(k) if isinstance(c, dict) else None
+                if isinstance(d, dict) and d.get("names") and d.get("eq"):
+                    for n in d["names"]:
+                        if n.endswith("_npu"):
+                            m.setdefault(n[:-4], d["eq"])
     return m
 
 
@@ -42,6 +51,9 @@ def run_tag_machine(case, rec, an, streams):
 
     for ti in sg["inputs"]:
         define(ti)
+    for ti, t in enumerate(sg["tensors"]):
+        if t.get("is_variable"):
+            define(ti)  # variable (state) tensors are zero-initialised by the runtime before the first inference
     containers = set()
     for n in an["npu"]:
         containers |= {n["scratch_tensor"], n["fast_tensor"]}
